@@ -14,6 +14,7 @@ TABLE_OBLIGATIONS = [
     (P + "no_nested_locking", "no virtual method calls another locking method while holding a guard"),
     (P + "hooks_at_linearization_points", "the hook calls in the source sit at the model's linearisation points"),
     (P + "process_variant_same", "mem_cache<process_settings> has the same lock table"),
+    (P + "hash_map_lookup_read_only", "private/hash_map.h: the bodies of hash_map::find/end (through basic_map::find, find_in_range, get) write nothing but local variables (the access table classifies hash_map calls from their bodies)"),
 ]
 MODEL_OBLIGATIONS = [
     (P + "linearizable", "every schedule of every thread programs: the hook order is a linearization (Spec.LinearizedBy) and the final state equals the sequential run, LRU order included"),
@@ -69,6 +70,52 @@ def gen_case(rng, nthreads, nops, limit, straddle, nkeys, bigvals, epilogue=True
     return lines
 
 
+def string_hash(b):
+    """cppcms::impl::string_hash (private/hash_map.h), transcribed: used only to *find* colliding keys; that the
+    keys really share a bucket chain does not matter for soundness of the judge"""
+    v = 0
+    for c in b:
+        v = ((v << 4) + c) & 0xFFFFFFFF
+        high = v & 0xF0000000
+        if high:
+            v = (v ^ (high >> 24)) ^ high
+    return v
+
+
+def colliding_keys(rng, n):
+    """n distinct short keys with identical string_hash (hence one bucket chain for every table size)"""
+    while True:
+        c1, c2 = rng.randrange(97, 110), rng.randrange(113, 123)
+        fam = [bytes([c1 + j, c2 - 16 * j]) for j in range(4) if 33 <= c2 - 16 * j < 127]
+        if rng.random() < 0.5:
+            fam = [rng.choice(b"xyz").to_bytes(1, "big") + k for k in fam]      # three-byte keys, same hash too
+        fam = [k for k in fam if string_hash(k) == string_hash(fam[0])]
+        if len(fam) >= n:
+            return [k.hex() for k in fam[:n]]
+
+
+def gen_collision_case(rng, nthreads, nops, limit, mixed):
+    """keys of one hash bucket, stored by the prologue, then (almost) fetch-only load from all threads: every
+    lookup walks the same chain under the shared lock"""
+    keys = colliding_keys(rng, rng.choice((2, 2, 3, 4)))
+    if rng.random() < 0.3:
+        keys = ["6171", "6261"]           # "aq" / "ba"
+    lines = []
+    for j, k in enumerate(keys):
+        lines.append(f"I store 1000 {k} {('P%d.' % j).encode().hex()} - 5000 -")
+    for t in range(nthreads):
+        for i in range(nops):
+            r = rng.random()
+            if mixed and r < 0.03:
+                lines.append(f"T {t} store 1000 {rng.choice(keys)} {gen_value(rng, t, i, False)} - 5000 -")
+            elif r < 0.04:
+                lines.append(f"T {t} stats")
+            else:
+                lines.append(f"T {t} fetch 1000 {rng.choice(keys)}")
+    lines += ["X stats"] + [f"X fetch 1000 {k}" for k in keys]
+    return lines
+
+
 def epilogue_ops(limit, nkeys):
     """single-threaded tail run by thread 0 after everything else is irrelevant to concurrency; it makes the final
     state observable: fetch every key (values, triggers), stats; with a limit, stores of fresh keys evict in LRU order,
@@ -94,6 +141,11 @@ def build_cases(c):
 
     thorough = c.tier == "thorough"
     nsmall, nmed, nbig = (3000, 700, 120) if thorough else (120, 36, 6)
+    for i in range(80 if thorough else 14):
+        nt = rng.choice((2, 3, 4, 4, 6, 8))
+        lines = gen_collision_case(rng, nt, rng.choice((40, 150, 400, 800)), rng.choice((0, 0, 20)), rng.random() < 0.25)
+        cases.append({"name": f"collide{i}", "nthreads": nt, "limit": 0, "spin": 0, "flags": 1, "lines": lines, "nops": len(lines)})
+        cases[-1]["limit"] = rng.choice((0, 0, 20))
     for i in range(nsmall):
         add(f"small{i}", rng.choice((2, 2, 3, 4)), rng.randrange(2, 8), rng.choice((0, 0, 1, 2, 3)), rng.random() < 0.3,
             rng.choice((1, 2, 3)), rng.choice((0, 50, 400)), yield_=rng.random() < 0.3)
@@ -200,7 +252,9 @@ def run_cases(c, hbin, model, cases, label, env=None, flags=None, judge=True, ti
         if rc != 0 or len(done) < len(cases) - idx:
             bad = cases[idx + len(done)] if idx + len(done) < len(cases) else cases[-1]
             tsan = "ThreadSanitizer" in err
-            c.violation(("ThreadSanitizer report" if tsan else "sanitizer abort / crash of the real code") + f" in stream {label}",
+            hang = rc == 77 or any(l.startswith("HANG case") for l in partial) or rc == 124
+            c.violation(("operations never completed (watchdog): hang of the real code, every_op_completes violated" if hang else
+                         "ThreadSanitizer report" if tsan else "sanitizer abort / crash of the real code") + f" in stream {label}",
                         {"case": bad["name"], "case_lines": harness_input(bad, flags), "stderr": err[-6000:], "rc": rc,
                          "partial_output": partial[-20:]})
             if tsan and len(done) == len(cases) - idx:
@@ -282,6 +336,7 @@ def racy : List (Method × Access × Method × Access) := allMethods.flatMap fun
 #eval IO.println s!"race_free: {if racy.isEmpty then "holds" else "FALSE"} {repr (racy.take 4)}"
 #eval IO.println s!"hooks_at_linearization_points: {if Gen.hooks == linPoints then "holds" else "FALSE"} {repr Gen.hooks}"
 #eval IO.println s!"no_nested_locking: {if Gen.nested.all (fun x => x.2.2.isEmpty) then "holds" else "FALSE"}"
+#eval IO.println s!"hash_map_lookup_read_only: {if Gen.hashMapCalls.all (fun x => !(x.1 == "find" || x.1 == "end" || x.1 == "begin" || x.1 == "size") || !x.2) then "holds" else "FALSE"} {repr Gen.hashMapCalls}"
 #eval IO.println s!"process_variant_same: {Gen.processVariantSame}"
 #eval IO.println s!"prog: {repr (allMethods.map fun m => (m, Gen.prog m))}"
 """
@@ -307,8 +362,8 @@ def corpus_cases():
         ls = [l.rstrip("\n") for l in open(f) if l.strip() and not l.startswith("#")]
         hd = ls[0].split()
         res.append({"name": "corpus:" + os.path.basename(f), "nthreads": int(hd[1]), "limit": int(hd[2]), "spin": int(hd[3]),
-                    "flags": int(hd[4]), "lines": [l for l in ls[1:] if l.startswith(("T ", "X "))],
-                    "nops": sum(1 for l in ls if l.startswith(("T ", "X ")))})
+                    "flags": int(hd[4]), "lines": [l for l in ls[1:] if l.startswith(("T ", "X ", "I "))],
+                    "nops": sum(1 for l in ls if l.startswith(("T ", "X ", "I ")))})
     return res
 
 
@@ -320,7 +375,7 @@ def main():
               "results, hook stamps; judged by Spec.LinearizedBy with order = hook order.  non-trivial = distinct cases whose "
               "recorded history contains a fetch overlapping in real time with a mutator of another thread")
     c.trusted += [
-        "translator translate/c09.py (clang-14 AST of mem_cache<thread_settings> -> guard skeleton, access table, hook placement)",
+        "translator translate/c09.py (clang-14 AST of mem_cache<thread_settings> and of the hash_map/basic_map/intrusive_list instantiations -> guard skeleton, access table with hash_map calls classified from their bodies, hook placement)",
         "atomicity of the segments between lock operations (justified by race_free over the generated table; observed by TSan on explored schedules only)",
         "booster::shared_mutex / booster::mutex = pthread_rwlock / pthread_mutex behave as a readers-writer lock and a mutex (not verified; TSan observes them)",
         "sequential behaviour of each segment = C07's model (tied by C07's correspondence check and by this check's replay in hook order)",
@@ -353,7 +408,7 @@ def main():
         if hbin and os.path.exists(model) and "case_lines" in rp:
             hd = rp["case_lines"][0].split()
             cs = {"name": rp.get("case", "replay"), "nthreads": int(hd[1]), "limit": int(hd[2]), "spin": int(hd[3]), "flags": int(hd[4]),
-                  "lines": [l for l in rp["case_lines"] if l.startswith(("T ", "X "))], "nops": sum(1 for l in rp["case_lines"] if l.startswith(("T ", "X ")))}
+                  "lines": [l for l in rp["case_lines"] if l.startswith(("T ", "X ", "I "))], "nops": sum(1 for l in rp["case_lines"] if l.startswith(("T ", "X ", "I ")))}
             if "history" in rp:
                 recs, errs, _ = parse_records(rp["history"])
                 rc, jout, _ = c.run_lines(model, judge_lines(cs, recs, False))
@@ -371,6 +426,9 @@ def main():
         for cs in cases:
             for l in cs["lines"]:
                 k = l.split()[2] if l.startswith("T ") else l.split()[1]
+                if l.startswith("T ") and cs["name"].startswith("collide"):
+                    c.extra_cov.setdefault("collision_stream_ops", 0)
+                    c.extra_cov["collision_stream_ops"] += 1
                 dist[k] = dist.get(k, 0) + 1
         c.extra_cov["op_distribution"] = dist
         c.extra_cov["cases"] = {"total": len(cases), "threads": sorted({cs["nthreads"] for cs in cases}),
@@ -380,9 +438,11 @@ def main():
             if c.impl_build(tsan=True):
                 tbin = c.harness("c09", tsan=True)
                 if tbin:
-                    env = {"TSAN_OPTIONS": "halt_on_error=0:exitcode=66:second_deadlock_stack=1"}
+                    env = {"TSAN_OPTIONS": "halt_on_error=0:exitcode=66:second_deadlock_stack=1", "C09_WATCHDOG": "180"}
                     nt, nb = (900, 30) if c.tier == "thorough" else (150, 6)
-                    sub = [cs for cs in cases if cs["nops"] <= 400][:nt] + [cs for cs in cases if cs["nops"] > 400][:nb]
+                    coll = [cs for cs in cases if cs["name"].startswith(("collide", "corpus"))]
+                    rest = [cs for cs in cases if not cs["name"].startswith(("collide", "corpus"))]
+                    sub = coll + [cs for cs in rest if cs["nops"] <= 400][:nt] + [cs for cs in rest if cs["nops"] > 400][:nb]
                     # (a) nothing of the harness synchronises the threads: hook not registered, no stamps
                     run_cases(c, tbin, model, sub, "tsan-pure", env=env, flags=0, judge=False)
                     # (b) with stamps and hook: linearizability under TSan's scheduling
